@@ -894,6 +894,10 @@ func (c *Compiler) compileVariable(expr *ast.VariableExpr) error {
 
 // compileBinaryOp compiles binary operation
 func (c *Compiler) compileBinaryOp(expr *ast.BinaryOpExpr) error {
+	if expr.Op == ast.And || expr.Op == ast.Or {
+		return c.compileLogicalOp(expr)
+	}
+
 	// Compile left operand
 	if err := c.compileExpression(expr.Left); err != nil {
 		return err
@@ -935,6 +939,47 @@ func (c *Compiler) compileBinaryOp(expr *ast.BinaryOpExpr) error {
 	default:
 		return fmt.Errorf("unsupported binary operator: %v", expr.Op)
 	}
+
+	return nil
+}
+
+// compileLogicalOp compiles && and || so that the right operand is evaluated
+// only when the left one does not decide the result, as in the interpreter:
+// `false && f()` and `x == null || x.y > 1` must not run their right side.
+//
+//	left; JumpIfFalse skip; right; push true; And; Jump end; skip: push false; end:
+//
+// (|| is the mirror image.) Combining the right operand with the neutral
+// element keeps the check that it is a boolean; the conditional jump checks
+// the left one.
+func (c *Compiler) compileLogicalOp(expr *ast.BinaryOpExpr) error {
+	isAnd := expr.Op == ast.And
+
+	if err := c.compileExpression(expr.Left); err != nil {
+		return err
+	}
+	skip := len(c.code)
+	if isAnd {
+		c.emitWithOperand(vm.OpJumpIfFalse, 0) // Placeholder
+	} else {
+		c.emitWithOperand(vm.OpJumpIfTrue, 0) // Placeholder
+	}
+
+	if err := c.compileExpression(expr.Right); err != nil {
+		return err
+	}
+	c.emitWithOperand(vm.OpPush, uint32(c.addConstant(vm.BoolValue{Val: isAnd})))
+	if isAnd {
+		c.emit(vm.OpAnd)
+	} else {
+		c.emit(vm.OpOr)
+	}
+	end := len(c.code)
+	c.emitWithOperand(vm.OpJump, 0) // Placeholder
+
+	c.patchJump(skip, uint32(len(c.code)))
+	c.emitWithOperand(vm.OpPush, uint32(c.addConstant(vm.BoolValue{Val: !isAnd})))
+	c.patchJump(end, uint32(len(c.code)))
 
 	return nil
 }
